@@ -180,10 +180,11 @@ def xy_fn(x=0, x_y=0, y=0):
 
 
 def type_signature(x):
-  """Exact types of every Buildable and container, in traversal order (the projection abstracts subclasses)."""
+  """Exact types of every Buildable and container, by path (the projection abstracts subclasses)."""
   from fiddle import daglish  # pylint: disable=g-import-not-at-top
-  return [type(v).__qualname__ for v, _ in daglish.iterate(x, memoized=False)
-          if isinstance(v, (fdl.Buildable, list, tuple, dict))]
+  # (by path, sorted: dict insertion order is no part of a configuration's value)
+  return sorted((daglish.path_str(p), type(v).__qualname__) for v, p in daglish.iterate(x, memoized=False)
+                if isinstance(v, (fdl.Buildable, list, tuple, dict)))
 
 
 def special_pairs():
